@@ -89,6 +89,11 @@ Theorem C13_step_check_sound : forall a b, DirModel.step_ok_b a b = true -> DirP
 Proof. exact DirProofs.step_ok_b_sound. Qed.
 Print Assumptions C13_step_check_sound.
 
+(* ... and complete: it accepts every pair of directory states the theorems allow (no alarm where the property holds) *)
+Theorem C13_step_check_complete : forall a b, DirProofs.step_ok a b -> DirModel.step_ok_b a b = true.
+Proof. exact DirProofs.step_ok_b_complete. Qed.
+Print Assumptions C13_step_check_complete.
+
 Theorem C13_listed_once_from_directory_steps :
   forall (cost dcost pcost : Lib.name * N -> N) (st : nat -> list (option (Lib.name * N))) (tm : nat -> nat) (lims : nat -> limits),
   (forall t, DirProofs.step_ok (st t) (st (S t))) ->
